@@ -229,6 +229,10 @@ Fixpoint replay_from (k : nat) (vals : avals) (cands : list state) (sc : list (s
   | (st, o) :: rest =>
       let vals' := stim_vals vals st in
       let q := after_all vals' st cands in
+      if (o_res o =? 99)%Z then
+        (* the process died while this stimulus was being processed: fine iff the model can panic here *)
+        if existsb panicked q then (0, [], []) else (S k, cands, q)
+      else
       let keep := filter (fun s => obs_eqb (model_obs (stim_dflt st) s) o) q in
       match keep with
       | [] => (S k, cands, q)
